@@ -168,7 +168,8 @@ void quit(prepend,append)
 char *prepend;
 char *append;
 {
-  substdio_putsflush(&smtpto,"QUIT\r\n");
+  /* not through safewrite: the verdict is decided, a failing QUIT must not replace it via dropped() */
+  timeoutwrite(timeout,smtpfd,"QUIT\r\n",6);
   /* waiting for remote side is just too ridiculous */
   out(prepend);
   outhost();
